@@ -57,10 +57,10 @@ CHECKS = {
   'note': 'which cbor-smol error a malformed payload produces is the assumed contract A8 (validated on nine concrete fault messages by gc_k_large_blobs_request_faults).' + _D,
  },
  'C06': {
-  'engine': 'D+K', 'design_ref': 'DESIGN.md §5 C06',
-  'technique': 'Verus-discharged declaration obligations (plain derived Deserialize, no deny_unknown_fields/flatten/untagged, text-keyed) for the seven extensible maps; bounded Kani run of the real skipper',
-  'text': 'Proof of the repo-side precondition: unknown keys of the seven host maps are routed to the skipper. The skipper (cbor-smol ignore) consuming exactly one item of any shape is assumed (A9) and exercised on six value shapes at three positions.',
-  'note': 'A2, A9 assumed; nesting depth / size of unknown values not explored (symbolic CBOR through cbor-smol is infeasible).' + _D,
+  'engine': 'V+D+X+K', 'design_ref': 'DESIGN.md §5 C06, §10.4d',
+  'technique': 'Verus proof of the item skipper of the pinned cbor-smol (Deserializer::ignore and its helpers, verbatim from the registry) against the RFC 8949 definite-length grammar, incl. termination; declaration + macro-expansion obligations that unknown keys are routed to it',
+  'text': 'Unbounded: whatever well-formed definite-length value an unknown member holds (any type, any nesting, any size), the skipper consumes exactly that value and nothing else, terminates and cannot panic (Verus, dependency source re-extracted every run); and for the seven extensible maps every key outside the exact specification key set reaches the skipper (declaration obligations + `__ignore` arm in the real macro expansion).',
+  'note': 'raw_deserialize_u32 (length-head reader) is external_body with contract len_head, validated by Kani through the public decoder; the serde runtime dispatching deserialize_ignored_any is assumed; usize is 64 bit.',
  },
  'C07': {
   'engine': 'V+K', 'design_ref': 'DESIGN.md §5 C07, §10',
